@@ -405,3 +405,32 @@ func VP_C01_codec_reuse() {
 	}
 	vp.Cover("end")
 }
+
+// the Marshal / Unmarshal shortcuts: Marshal's result equals what an Encoder
+// writes, and belongs to the caller - a result held across a later Marshal is
+// unchanged (no aliasing of a pooled buffer); Unmarshal of either result gives
+// the value back.
+func VP_C01_marshal_held() {
+	type T struct {
+		A int32  `nbt:"a"`
+		S string `nbt:"s"`
+	}
+	v1 := T{A: vp.Int32(), S: "x"}
+	v2 := T{A: vp.Int32(), S: "longer"}
+	vp.PoolMode(1)
+	b1, err := Marshal(v1)
+	vp.Assert(err == nil, "Marshal err==nil")
+	keep := append([]byte{}, b1...)
+	b2, err := Marshal(v2)
+	vp.Assert(err == nil, "Marshal err==nil")
+	b3, err := Marshal(int8(5))
+	vp.Assert(err == nil && len(b3) > 0, "Marshal err==nil")
+	var w vpBuf
+	vp.Assert(NewEncoder(&w).Encode(v1, "") == nil, "Encode err==nil")
+	vp.Assert(string(keep) == string(w.b), "Marshal == Encoder.Encode")
+	vp.Assert(string(b1) == string(keep), "a Marshal result is unchanged by later Marshal calls")
+	var g1, g2 T
+	vp.Assert(Unmarshal(b1, &g1) == nil && g1 == v1, "Unmarshal(Marshal(v)) == v (held result)")
+	vp.Assert(Unmarshal(b2, &g2) == nil && g2 == v2, "Unmarshal(Marshal(v)) == v")
+	vp.Cover("end")
+}
